@@ -104,6 +104,10 @@ def cases(tier, seed):
                             add("ptranspose.corollaries", dict(sys=list(S), rdims=list(rd), cdims=list(cd), seed=seed), "partial_transpose/corollaries")
                         if R * C <= 36 and size == 1:
                             add("ptranspose.index", dict(sys=list(S), rdims=list(rd), cdims=list(cd), sysform="int", dimform="2row-array", entries="sym"), "partial_transpose/rect-sym")
+    # rectangular cvxpy variables (the result has other numbers of rows and columns than the argument when the transposed block is not square)
+    for rd, cd, S in (([2, 2], [2, 3], [1]), ([2, 3], [2, 2], [1]), ([2, 2], [3, 2], [0]), ([2, 2], [2, 3], [0, 1]), ([3, 2], [2, 2], [0])):
+        for var in ("complex", "real"):
+            add("ptranspose.cvxpy", dict(sys=S, dims=rd, cdims=cd, var=var, seed=seed), "partial_transpose/cvxpy-rectangular-%s" % var)
     for d in (2, 3, 4, 5):
         add("ptranspose.index", dict(sys=[1], rdims=[d, d], cdims=[d, d], sysform="list", dimform="omitted"), "partial_transpose/omitted")
         add("ptranspose.index", dict(sys=[0], rdims=[d, d], cdims=[d, d], sysform="int", dimform="omitted"), "partial_transpose/omitted")
@@ -111,6 +115,10 @@ def cases(tier, seed):
         add("frame.args", dict(fn="partial_transpose", sys=S, rdims=[2, 3], cdims=[3, 2]), "frame/partial_transpose")
         add("frame.args", dict(fn="partial_transpose", sys=S, rdims=[2, 3, 2], cdims=[3, 2, 2]), "frame/partial_transpose")
     add("frame.args", dict(fn="partial_transpose", sys=[1], rdims=[2, 3], cdims=[2, 3], dimform="1row-array"), "frame/partial_transpose")
+    for S in ([0], [0, 1], [1]):
+        add("frame.args", dict(fn="partial_transpose", sys=S, rdims=[2, 3, 2], cdims=[3, 2, 2], dimdtype="float"), "frame/partial_transpose/float-dim-table")
+        add("frame.args", dict(fn="partial_transpose", sys=S, rdims=[2, 3], cdims=[2, 4], dimdtype="float"), "frame/partial_transpose/float-dim-table")
+    add("frame.args", dict(fn="realignment", rdims=[2, 3], cdims=[3, 2], dimdtype="float"), "frame/realignment/float-dim-table")
     for rd, cd in (([2, 3], [3, 2]), ([2, 2], [2, 2]), ([3, 2], [2, 4])):
         add("frame.args", dict(fn="realignment", rdims=rd, cdims=cd), "frame/realignment")
     for dt in ("int8", "uint8", "int32", "bool"):
